@@ -244,6 +244,77 @@ class SectionRoundTrip:
         return f
 
 
-TARGETS = [ParseRouting()]
+def _same_object_somewhere(value, stub):
+    fields = object.__getattribute__(stub, '_fields')
+    return any(v is value for v in fields.values())
+
+
+class KnownOptionsTable(Target):
+    """Dosini.known_flowir_options: the table that decides which keys of a section are options.  parse_component deletes
+    every 'known' key from the component's variables, so a table that grows during the life of the process silently drops
+    variables of later sections (load(dump(x)) != x although the files are identical).  The table stays what it is if
+    the function hands out a PRIVATE list, or if no caller modifies the list it receives: the property needs one of the two."""
+    prop = 'C19'
+    name = 'Dosini.known_flowir_options'
+    file = DS
+    qualname = 'Dosini.known_flowir_options'
+    inline_class = {'cls': (DS, 'Dosini')}
+    set_iter = 'sorted-repr'
+    compare_return = False
+    alternatives = {'callers-get-a-private-list': 'option-table-is-stable'}
+
+    def alt_case(self, c, st):
+        return 'option-table'
+
+    def setup(self, c):
+        cls = Obj('Dosini-class')
+        return State(args=[cls], cls=cls)
+
+    def real_function(self):
+        return Dosini.known_flowir_options.__func__
+
+    def ensures(self, c, st, out):
+        if out.kind == 'raise':
+            return [('no-exception', False)]
+        want = set(Dosini._known_flowir) | set(Dosini._translate_map.keys())
+        return [('lists-exactly-the-flowir-and-legacy-option-names', set(out.value) == want),
+                ('callers-get-a-private-list', not _same_object_somewhere(out.value, st.cls))]
+
+
+class ValidateComponentFrame(Target):
+    """the other half: Dosini.validate_component (the caller that extends the list with backend-specific options)"""
+    prop = 'C19'
+    name = 'Dosini.validate_component[frame]'
+    file = DS
+    qualname = 'Dosini.validate_component'
+    inline_class = {'cls': (DS, 'Dosini')}
+    set_iter = 'sorted-repr'
+    compare_return = False
+    pure = ('FlowIR.fill_in', 'FlowIR.discover_typos')
+    alternatives = {'the-option-table-is-not-modified': 'option-table-is-stable'}
+    assumptions = ["sections with a literal job-type (simulator, lsf, kubernetes, local) or none"]
+
+    def alt_case(self, c, st):
+        return 'option-table'
+
+    def setup(self, c):
+        backend = c.one_of('job-type', [None, 'simulator', 'lsf', 'kubernetes', 'local'])
+        table = ['executable', 'arguments', 'job-type']
+        cls = Obj('Dosini-class', known_flowir_options=Extern('known_flowir_options', lambda c: table))
+        options = {'executable': 'x', 'arguments': 'y'}
+        if backend:
+            options['job-type'] = backend
+        return State(args=[cls, options, 'comp', 0, [], [], 'stage0.comp'], table=table, before=list(table), cls=cls)
+
+    def real_function(self):
+        return Dosini.validate_component.__func__
+
+    def ensures(self, c, st, out):
+        if out.kind == 'raise':
+            return [('no-exception', False)]
+        return [('the-option-table-is-not-modified', st.table == st.before)]
+
+
+TARGETS = [ParseRouting(), KnownOptionsTable(), ValidateComponentFrame()]
 LEMMAS = [KeyTables()]
 BOUNDED = [SectionRoundTrip()]
